@@ -145,6 +145,11 @@ PROBES = [
      dict(op='popkeys', loc=2, ks=[1, 4], d=77, how='iter'), dict(op='items', loc=2), dict(op='popkeysd', loc=2, ks=[2, 3], d=77, how='iter'),
      dict(op='update0', loc=1), dict(op='updatekwonly', loc=1, k=1, v=12, k2=4, v2=41), dict(op='updateitems', loc=2, k=2, v=21, k2=3, v2=33),
      dict(op='items', loc=1), dict(op='items', loc=2)],
+    # popitem / pop / setdefault / get after a key has been overwritten (a store that keeps a history must hand out the LAST value)
+    [dict(op='set', loc=1, k=1, v=11), dict(op='set', loc=1, k=1, v=12), dict(op='set', loc=1, k=1, v=13), dict(op='popitem', loc=1),
+     dict(op='items', loc=1), dict(op='set', loc=2, k=2, v=21), dict(op='set', loc=2, k=2, v=22), dict(op='setdefault', loc=2, k=2, v=23),
+     dict(op='get', loc=2, k=2), dict(op='pop', loc=2, k=2), dict(op='set', loc=2, k=3, v=31), dict(op='update', loc=2, k=3, v=32, k2=4, v2=41),
+     dict(op='popitem', loc=2), dict(op='popitem', loc=2), dict(op='len', loc=2)],
     # what a failed bulk update leaves behind must not be undone (or completed) by a LATER failing or succeeding operation
     [dict(op='set', loc=1, k=1, v=11), dict(op='updatebad', loc=1, k=2, v=21, k2=3), dict(op='items', loc=1),
      dict(op='setbad', loc=1, k=4), dict(op='items', loc=1), dict(op='len', loc=1), dict(op='set', loc=2, k=1, v=12),
